@@ -138,6 +138,26 @@ def run(ctx):
             ph, d = o[2 * i], o[2 * i + 1]
             worst = max(worst, abs(vlib.w32(ph - (2**29 if b else -2**29))) / 2.0**29 / 4 * 1.0)
             if d != b: ctx.report('boots-decrypt-wrong', '%d-bit set: bootsSymDecrypt(bootsSymEncrypt(%d)) = %d (phase %d)' % (lam, b, d, ph), {'lambda': lam, 'bit': b, 'phase': ph})
+    # ---- gate API decryption on harness-built ciphertexts: phase +-1/8 + e decrypts to the bit for every |e| < 1/8
+    #      (the whole interval, not only the small noise of fresh encryptions), both default sets
+    for lam in (128, 80):
+        spec = fmt([lam, 0, 0, 0, 0, 0, 0, 0, 0, ctx.seed * 10 + 5])
+        g0 = ints(vlib.run_lines(bexe, ['fullkey ' + spec], timeout=900)[0]); n = g0[0]; s = g0[7:7 + n]
+        es = [0, 1, -1, 2**29 - 1, -(2**29 - 1), 2**29 - 4096, -(2**29 - 4096), 2**28, -2**28, 2**28 + 1, -(2**28 + 1), 2**28 - 1, 3 * 2**27, -3 * 2**27, 2**27, -2**27] + [rng.randrange(-2**29 + 1, 2**29) for _ in range(8 if not thorough else 200)]
+        dl = []; dm = []
+        for bit in (0, 1):
+            for e in es:
+                a = [rng.randrange(-2**31, 2**31) for _ in range(n)]
+                b = vlib.w32((2**29 if bit else -2**29) + e + sum(x for x, y in zip(a, s) if y))
+                dl.append('decbit %s %s %d' % (spec, fmt(a), b)); dm.append((bit, e, 'decbit %d %s %s %d' % (n, fmt(s), fmt(a), b)))
+        io = vlib.run_lines(bexe, dl, timeout=900); mo = vlib.run_model([m[2] for m in dm], 'fast', timeout=900)
+        for l, o, m, (bit, e, ml) in zip(dl, io, mo, dm):
+            ctx.count(('decbit', lam, bit, e))
+            if o.startswith('CRASH'): ctx.report('boots-decrypt-crash', 'bootsSymDecrypt died', {'case': l[:10000]}); continue
+            d = ints(o)[0]
+            if d != bit:
+                ctx.report('boots-decrypt-wrong', '%d-bit set: a ciphertext of bit %d with phase error %d units (|e| < 2^29 = 1/8) decrypts to %d' % (lam, bit, e, d), {'case': l[:10000], 'kind': 'gate ciphertext', 'message': bit, 'decrypted': d, 'expected': bit})
+            if ints(m)[0] != d: ctx.soft('correspondence:decrypt-bit', 'bootsSymDecrypt differs from the model decrypt_bit (phase error %d)' % e, {'case': l[:10000]})
     ctx.hypotheses['largest |error| / decision threshold seen on fresh ciphertexts'] = round(worst, 4)
     ctx.sample({'Msizes': Ms, 'dimensions': ns, 'worst_error_over_threshold': round(worst, 4)})
 
@@ -148,6 +168,9 @@ def replay(ctx, data):
         o = vlib.run_lines(drv, data['sequence'], timeout=600)[-1]
         print('last of %d decryptions in one process: implementation now returns %s ...; message %s ...' % (len(data['sequence']), o.split()[:10], data.get('message')))
         return 0
+    if 'case' in data and data['case'].startswith('decbit'):
+        drv = vlib.build_harness('boot_drv.cpp', vlib.build_lib('optim'), 'spqlios-fma', 'optim')
+        print('bootsSymDecrypt now returns (bit, phase): %s; recorded: message %s decrypted %s' % (vlib.run_lines(drv, [data['case']], timeout=600)[0], data.get('message'), data.get('decrypted'))); return 0
     if 'case' not in data or not data['case'].startswith('enc'): print(json.dumps(data, indent=1)[:2000]); return 0
     o = vlib.run_lines(exe, [data['case']], timeout=600)[0]
     print('case: %s ...\nimplementation now: %s\nrecorded: %s' % (data['case'][:120], o[:200], {k: data[k] for k in data if k in ('phase', 'decrypted', 'expected', 'message', 'kind')}))
